@@ -187,18 +187,24 @@ structure BuildSt where
 
 def Node.fileOf (n : Node) : FileId := n.tok.file
 
-def buildCfg (nodes : List Node) (predefined : Option (List (W String))) : Except CfgErr Cfg := do
-  let labelNs := labelNames nodes
-  let calls := (predefined.getD []).foldl addName (callNames nodes)
-  let jumps := jumpNames nodes
-  let loads := loadNames nodes
-  -- call_names ∪ jump_names ∪ load_names. `HashSet::union` iterates the *larger* set first, so
-  -- for a name in both sets the token of the larger set is the one that is kept.
+/-- `call_names` including the predefined (interrupt handler) names -/
+def allCallNames (nodes : List Node) (predefined : Option (List (W String))) : List (W String) :=
+  (predefined.getD []).foldl addName (callNames nodes)
+
+/-- `call_names ∪ jump_names ∪ load_names`. `HashSet::union` iterates the *larger* set first, so
+    for a name in both sets the token of the larger set is the one that is kept. -/
+def usedNames (nodes : List Node) (predefined : Option (List (W String))) : List (W String) :=
   let union (a b : List (W String)) : List (W String) :=
     if a.length ≥ b.length then b.foldl addName a else a.foldl addName b
-  let used := union (union calls jumps) loads
-  let undefined := used.filter fun w => !nameIn labelNs w.val
-  if !undefined.isEmpty then throw (.labelsNotDefined undefined)
+  union (union (allCallNames nodes predefined) (jumpNames nodes)) (loadNames nodes)
+
+/-- the used names that no label defines -/
+def undefinedNames (nodes : List Node) (predefined : Option (List (W String))) : List (W String) :=
+  (usedNames nodes predefined).filter fun w => !nameIn (labelNames nodes) w.val
+
+/-- PASS 1 of `Cfg::new`: one graph node per instruction, function entries in front of called labels -/
+def buildNodes (nodes : List Node) (predefined : Option (List (W String))) : Except CfgErr Cfg := do
+  let calls := allCallNames nodes predefined
   let mut st : BuildSt := {}
   for node in nodes do
     match node with
@@ -221,6 +227,10 @@ def buildCfg (nodes : List Node) (predefined : Option (List (W String))) : Excep
         st := { st with out := st.out.push { node := node, labels := st.cur, isText := st.isText },
                         cur := [] }
   pure { nodes := st.out }
+
+def buildCfg (nodes : List Node) (predefined : Option (List (W String))) : Except CfgErr Cfg :=
+  if (undefinedNames nodes predefined).isEmpty then buildNodes nodes predefined
+  else .error (.labelsNotDefined (undefinedNames nodes predefined))
 
 /-! ### `NodeDirectionPass` -/
 
